@@ -122,9 +122,18 @@ import collections as _collections
 _SEQ = (list, tuple, _collections.deque)
 
 
+def _wrapped_sym(a):
+    """Crypto.Math IntegerNative holding a symbolic value"""
+    return isinstance(getattr(a, '_value', None), SymInt)
+
+
+def _unwrap(a):
+    return a._value if _wrapped_sym(a) else a
+
+
 def _any_sym(args, kw):
     for a in args:
-        if is_sym(a):
+        if is_sym(a) or _wrapped_sym(a):
             return True
         if type(a) in _SEQ:
             for b in a:
@@ -160,7 +169,7 @@ def ps_call(f, *args, **kw):
     except TypeError:
         m = None
     if m is not None:
-        return m(*args, **kw)
+        return m(*[_unwrap(a) for a in args], **kw)
     tf = type(f)
     if tf is _BUILTIN_METHOD:
         s = getattr(f, '__self__', None)
